@@ -385,10 +385,15 @@ type gTypeRef struct {
 	List        bool
 	NonNull     bool // of the outer type
 	ItemNonNull bool // of list items
+	// Nested (with List): a list of lists, [[Name]]; inner lists and their items are nullable
+	Nested bool
 }
 
 func (t gTypeRef) String() string {
 	s := t.Name
+	if t.List && t.Nested {
+		s = "[" + s + "]"
+	}
 	if t.List {
 		if t.ItemNonNull {
 			s += "!"
@@ -399,6 +404,14 @@ func (t gTypeRef) String() string {
 		s += "!"
 	}
 	return s
+}
+
+// item is the type of the elements of a list type.
+func (t gTypeRef) item() gTypeRef {
+	if t.Nested {
+		return gTypeRef{Name: t.Name, List: true}
+	}
+	return gTypeRef{Name: t.Name, NonNull: t.ItemNonNull}
 }
 
 type gFieldDef struct {
@@ -691,7 +704,7 @@ func (e *gExec) complete(t gTypeRef, raw any, sel []*gSelection, path []any) (an
 		}
 		out := make([]any, 0, len(items))
 		for i, it := range items {
-			v, err := e.complete(gTypeRef{Name: t.Name, NonNull: t.ItemNonNull}, it, sel, append(copyPath(path), i))
+			v, err := e.complete(t.item(), it, sel, append(copyPath(path), i))
 			if err != nil {
 				if t.ItemNonNull {
 					if t.NonNull {
